@@ -12,6 +12,9 @@ import (
 const sqlTxT = "embedded/sql.(*SQLTx)."
 
 func c12(c *Ctx) {
+	// the uniqueness probe of doUpsert and the emptiness probe of CREATE UNIQUE INDEX are prefix lookups of the store:
+	// a tombstone in front of a live entry must not end them (analysis shared with C04.4)
+	c04PrefixLookupContinues(c, "C12.10/unique-lookup-skips-tombstones")
 	sink := callTo(sqlTxT + "doUpsert")
 	check := callTo("embedded/sql.checkConstraints")
 	callers := map[*ssa.Function]bool{}
